@@ -4,7 +4,7 @@
    `steps (initial prog) st` ranges over every interleaving. Editor.external_print is what the editing
    thread does with a message. Real schedules are sampled by the printer stream, not enumerated. *)
 From Coq Require Import List Arith.
-From RL Require Import UData LineBuffer ExtPrint ExtPrintProofs Editor EditorRun UndoEditor RecallProofs ExtPrintEditor.
+From RL Require Import UData LineBuffer ExtPrint ExtPrintProofs Editor EditorRun UndoEditor RecallProofs ExtPrintEditor PrintStream.
 
 (* through every interleaving, for every thread: what has been shown ++ what is in the channel ++ what is
    still to do is exactly the thread's program -- no message lost, shown twice, or out of order -- and the
@@ -65,6 +65,24 @@ Theorem C19_message_written :
                                 ++ m :: Render.clear_old_rows (e_layout s) :: e_out s.
 Proof. exact external_print_writes_message. Qed.
 Print Assumptions C19_message_written.
+
+(* OVER WHOLE READS (the messages handed over while a read runs are items of the model's input stream, msgs = those still
+   pending, in order): a raw read -- a character of a key sequence, of an incremental search, of a completion -- leaves
+   every pending message where it is: a message that arrives inside a search or completion is not lost, it waits ... *)
+Theorem C19_raw_read_keeps_messages :
+  forall (s : est) (c : N) (s' : est), next_char s = EOk c s' -> msgs (e_inp s') = msgs (e_inp s).
+Proof. exact next_char_keeps_msgs. Qed.
+Print Assumptions C19_raw_read_keeps_messages.
+
+(* ... and for EVERY input, mode, helper and binding: when the read returns, the messages still pending are a SUFFIX of
+   those pending when it started -- none lost, duplicated or reordered in the stream; the others were taken off the
+   front, one at a time and in order, by the main loop's wait, which is the only place that takes one and which shows
+   it (C19_message_written: whole, once) *)
+Theorem C19_read_takes_messages_in_order :
+  forall (U : UData) (cfg : config) (fuel : nat) (s s' : est),
+  main_loop U cfg fuel s = EOk tt s' -> exists shown, msgs (e_inp s) = shown ++ msgs (e_inp s').
+Proof. intros U cfg fuel s s'. exact (main_loop_shows_msgs U cfg fuel s tt s'). Qed.
+Print Assumptions C19_read_takes_messages_in_order.
 
 (* non-vacuity: two threads, three messages, one interleaving *)
 Example C19_example :
